@@ -1,7 +1,7 @@
 //! MVCC Transaction System for AxmosDB
 use crate::{
     io::pager::SharedPager,
-    types::{LogicalId, TransactionId},
+    types::{LogicalId, ObjectId, TransactionId},
 };
 use parking_lot::RwLock;
 use std::{
@@ -19,6 +19,8 @@ use std::{
 pub enum TransactionError {
     Aborted(TransactionId),
     WriteWriteConflict(TransactionId, LogicalId),
+    /// A concurrent transaction that committed first inserted the same key into a unique index.
+    UniqueKeyTaken(TransactionId, ObjectId),
     NotFound(TransactionId),
     TupleNotVisible(TransactionId, LogicalId),
     TransactionAlreadyStarted,
@@ -32,6 +34,11 @@ impl Display for TransactionError {
         match self {
             Self::Aborted(id) => write!(f, "Transaction {} aborted", id),
 
+            Self::UniqueKeyTaken(txid, index) => write!(
+                f,
+                "UNIQUE constraint violated: transaction {} and a transaction that committed meanwhile inserted the same key into index {}",
+                txid, index
+            ),
             Self::WriteWriteConflict(txid, tuple) => {
                 write!(f, "Transaction {} conflict on tuple {}", txid, tuple)
             }
@@ -458,7 +465,11 @@ impl TransactionCoordinator {
                 // A transaction refused at commit is rolled back like any other: its rows stay in the
                 // tables, so its id has to reach the persistent aborted set as well.
                 self.pager.write().mark_transaction_aborted(txid);
-                Err(TransactionError::WriteWriteConflict(txid, id))
+                if self.is_key_entry(txid, id) {
+                    Err(TransactionError::UniqueKeyTaken(txid, id.table()))
+                } else {
+                    Err(TransactionError::WriteWriteConflict(txid, id))
+                }
             }
         }
     }
@@ -502,6 +513,17 @@ impl TransactionCoordinator {
 
         entry.add_to_read_set(logical_id);
         Ok(())
+    }
+
+    /// Write-set entries that stand for a key of a unique index (object = the index, row = hash of
+    /// the key) carry this tag instead of a tuple version.
+    pub const KEY_ENTRY: u8 = u8::MAX;
+
+    fn is_key_entry(&self, txid: TransactionId, id: LogicalId) -> bool {
+        self.transactions
+            .read()
+            .get(&txid)
+            .is_some_and(|entry| entry.write_set().get(&id) == Some(&Self::KEY_ENTRY))
     }
 
     /// Record a write operation for a transaction
@@ -561,7 +583,10 @@ impl TransactionCoordinator {
         let entry = txs.get(&txid).ok_or(TransactionError::NotFound(txid))?;
 
         let start_ts = entry.start_ts();
-        let write_set: Vec<LogicalId> = entry.write_set().keys().copied().collect();
+        // Tuples before index keys: a transaction that lost a tuple and a key reports the tuple.
+        let mut entries: Vec<(LogicalId, u8)> = entry.write_set().iter().map(|(id, v)| (*id, *v)).collect();
+        entries.sort_by_key(|(_, version)| *version == Self::KEY_ENTRY);
+        let write_set: Vec<LogicalId> = entries.into_iter().map(|(id, _)| id).collect();
 
         // Check and publication are one step with respect to other committers: of two transactions
         // that wrote the same tuple, the second one to get here must see the first one's entry.
